@@ -21,8 +21,8 @@ using SA = StaticArrayT<Short, CAP>;
 static bool item_eq(const Item& a, const Item& b) {
   bool r = a.origin == b.origin && a.destination == b.destination && a.method == b.method && a.type == b.type;
 #ifdef PAYLOAD_INT
-  r = r && a.payloadSet == b.payloadSet;
-  for (unsigned k = 0; k < sizeof(PL); ++k) r = r && a.storage[k] == b.storage[k];
+  r = r && a.payloadSet == b.payloadSet;                       // view: (has payload, value) - the bytes of an absent payload are nobody's business
+  if (a.payloadSet) for (unsigned k = 0; k < sizeof(PL); ++k) r = r && a.storage[k] == b.storage[k];
 #endif
   return r;
 }
@@ -81,8 +81,8 @@ extern "C" void proof_da_copy_clear() {
   VASSERT(C19, c.count() == a.count(), "copy: same count");
   unsigned j = nd_u8(); VASSUME(j < a._count);
   VASSERT(C19, item_eq(c._items[j], a._items[j]), "copy: same items in the same order");
-  DA e; e = a;
-  VASSERT(C19, e.count() == a.count() && item_eq(e._items[j], a._items[j]), "assignment: same sequence");
+  DA e; nd_array(e); e = a;                          // assignment OVER arbitrary previous contents (e.g. last step's transitions, some with payloads)
+  VASSERT(C19/C14, e.count() == a.count() && item_eq(e._items[j], a._items[j]), "assignment replaces the whole sequence, whatever the array held: same items, same payloads, none left over");
   const DA& ca = a;
   VASSERT(C19, &a[j] == &a._items[j] && &ca[j] == &a._items[j], "operator[] addresses item j");
   a.clear();
